@@ -31,6 +31,11 @@ impl<'a> Gen<'a> {
             self.raw();
             return 0;
         }
+        if n > u32::MAX as u64 {
+            let hi = self.raw() as u128;
+            let lo = self.raw() as u128;
+            return (((hi << 32 | lo) * n as u128) >> 64) as u64;
+        }
         ((self.raw() as u64) * n) >> 32
     }
     pub fn range(&mut self, lo: i64, hi: i64) -> i64 {
